@@ -106,7 +106,7 @@ add("C06", "read limit",
     [H("vfH_read_step_data", ["step-limit-error"], 1800, {"tier": 1})],
     ["inductive arithmetic: limit L, running length and the frame's claimed length fully symbolic (all 64-bit values incl. top bit set and sums that overflow), every allocation on the path bounded by 600 bytes (AllocBound)",
      "memory never depends on the claimed length: one data frame claiming 1, 2 or >= 16384 bytes (up to 2^64-1, every length form) followed by 2 payload bytes, with no limit / limit 64 / limit 2^40, read by ReadMessage, NextReader+Read and JoinMessages under an allocation bound of 1100 bytes",
-     "histories: symbolic limit 1..12; message A (5 fragmentations, optional ping) read fully / one byte / not at all; message B within the limit; message C over the limit; both roles; chunking max / 1 byte"],
+     "histories: symbolic limit 1..12; message A (5 fragmentations, optional ping) read fully / one byte / not at all; message B within the limit; message C over the limit, optionally with a ping between its fragments whose handler re-asserts SetReadLimit(L); both roles; chunking max / 1 byte"],
     ["allocations inside stubbed code (io.CopyN's pooled 8 KiB discard buffer is real and constant)", "histories longer than 3 messages (covered by the inductive step for the arithmetic)"],
     ASSUME_COMMON + [CLOCK], STUB_COMMON,
     LV + "The 1009 close is required only when the running sum crosses the limit; for a top-bit-set length and an overflowing sum the frame must be refused with ErrReadLimit before its payload (close frame optional), as C04 exempts the top-bit case.",
@@ -131,10 +131,11 @@ add("C09", "nothing after close",
     "trusted: engine translation; concurrency is outside this check")
 
 add("C10", "write failures fail-stop",
-    [H("vfH_fault_write", ["fault-write-end"], 400), H("vfH_invalid_req", ["invalid-req-end"]), H("vfH_deadline", ["deadline-end"]), H("vfH_control_step", ["control-accepted", "control-refused"]), TWIN("vfH_fault_write"), TWIN("vfH_invalid_req")],
-    [H("vfH_fault_write", ["fault-write-end"], 3000, {"tier": 1})],
+    [H("vfH_fault_write", ["fault-write-end"], 400), H("vfH_invalid_req", ["invalid-req-end"]), H("vfH_deadline", ["deadline-end"]), H("vfH_control_step", ["control-accepted", "control-refused"]), H("vfH_conc_fault", ["conc-fault-end"]), TWIN("vfH_fault_write"), TWIN("vfH_invalid_req")],
+    [H("vfH_fault_write", ["fault-write-end"], 3000, {"tier": 1}), H("vfH_conc_fault", ["conc-fault-end"], 900, {"preempt": 3, "tier": 1})],
     ["2-step write programs (6 programs incl. prepared, implicit close, WriteControl; payloads 1 and 37 bytes, buffer 4) x every index k of a write-side transport operation (SetWriteDeadline, Write, each Write of a two-buffer frame) x {error, timeout, short write + error}; then 2 later calls out of the 7 write APIs and Close of the open writer",
      "invalid requests: message type fully symbolic outside {1,2,8,9,10} through NextWriter / WriteMessage / WriteControl / NewPreparedMessage; control payload of 126 bytes through every API; control message larger than the buffer; before or after a valid message; with an instrumented pool",
+     "fault while a second caller waits (conc_fault): a data writer and a WriteControl caller run as two goroutines, write-side operation 0..1 (thorough 0..3) fails in one of 3 ways; on every schedule within the preemption bound (quick 2, thorough 3) nothing reaches the transport after the failed operation and later calls fail",
      "deadlines: 3 steps of SetWriteDeadline / WriteControl with deadlines from {none, expired, three distinct live ones} / data messages; every transport Write is preceded by SetWriteDeadline with the deadline in force"],
     ["transports that transmit more than they report", "programs longer than 2-3 steps"],
     ASSUME_COMMON, STUB_COMMON + [STUB_FLATE],
@@ -160,10 +161,11 @@ add("C20", "pooled write buffers",
 
 add("C11", "concurrency contract",
     [H("vfH_conc_frames", ["conc-frames-end"], 400, {"preempt": 1}), H("vfH_conc_close", ["conc-close-end"]), H("vfH_conc_shared", ["conc-shared-end"]),
-     H("vfH_close_sched", ["close-sched-end"], 300), H("vfH_deadline", ["deadline-end"]), TWIN("vfH_conc_frames", {"preempt": 1}), TWIN("vfH_conc_shared")],
-    [H("vfH_conc_frames", ["conc-frames-end"], 1800, {"preempt": 2, "tier": 1}), H("vfH_close_sched", ["close-sched-end"], 900, {"preempt": 3}), H("vfH_conc_shared", ["conc-shared-end"], 900, {"preempt": 3})],
+     H("vfH_close_sched", ["close-sched-end"], 300), H("vfH_deadline", ["deadline-end"]), H("vfH_conc_fault", ["conc-fault-end"]), TWIN("vfH_conc_frames", {"preempt": 1}), TWIN("vfH_conc_shared")],
+    [H("vfH_conc_frames", ["conc-frames-end"], 1800, {"preempt": 2, "tier": 1}), H("vfH_close_sched", ["close-sched-end"], 900, {"preempt": 3}), H("vfH_conc_shared", ["conc-shared-end"], 900, {"preempt": 3}), H("vfH_conc_fault", ["conc-fault-end"], 900, {"preempt": 3, "tier": 1})],
     ["goroutines: 1 writer (a 43-byte message in 3 frames, on a server one frame written as two buffers), 1 reader (ping answered by the default handler, then a data message), 1 WriteControl caller (zero deadline / a deadline that may expire while the writer holds the connection / two calls), or Close(); 2 connections sharing one PreparedMessage and one buffer pool",
      "schedules: scheduling points at every transport operation (which may block arbitrarily long), goroutine start/end and every blocking lock or channel operation; context bound: quick 1 preemption (conc_frames) / 2 (others), thorough 2-3; timers may fire at any scheduling point after they were armed",
+     "transport fault under concurrency (conc_fault): a data writer and a WriteControl caller (zero / far deadline) run concurrently while write-side operation 0..1 (thorough 0..3) fails in one of 3 ways: nothing reaches the transport afterwards on any schedule, one of the calls reports it, later calls fail",
      "data races: vector-clock happens-before detector over every heap cell access of the interpreted code on every explored schedule; a reported race is replayed natively under go test -race"],
     ["'returns by that deadline' as a real-time bound (time is abstracted: the timeout path is taken whenever the timer wins, writes nothing and does not poison)", "more than 3 library goroutines + main, more preemptions than the bound", "races inside the real compress/flate pools (modelled)"],
     ASSUME_COMMON[:1] + [CLOCK, "preemption only at scheduling points is sound because the explored executions are checked to be data-race-free"], STUB_COMMON + [STUB_FLATE],
